@@ -317,8 +317,11 @@ def check_pointer_trust(ck):
                 # decided as: assuming the validity test answers False, the call is unreachable (whatever the
                 # shape of the test: guard clause, nested if, negation, conjunction with other conditions)
                 invalid = Assume(g, call_atom(("exists_nonversioned",), False))
-                tested = any(n.kind == "test" and n.id in g.cfg.reachable_nodes() and invalid.truth(n.ast, n.id) is not None for n in g.cfg.nodes)
-                okd = tested and not invalid.live(gcall)
+                # (the guard may also sit below statement level: `get(k) if exists(k) else ...`, `exists(k) and get(k)`)
+                from .c07 import expr_live, sub_conditions
+                tested = any(n.kind == "test" and n.id in g.cfg.reachable_nodes() and invalid.truth(n.ast, n.id) is not None for n in g.cfg.nodes) \
+                    or any(invalid.truth(t, i) is not None for t in sub_conditions(g) for i in g.nodes(t)[:1])
+                okd = tested and not expr_live(invalid, gcall)
                 ck.ob(R, g.key(gcall, "validated-before-use"), okd or atomic,
                       "get_versioned_key is reached only after a positive exists_nonversioned test" if okd else
                       "get_versioned_key is called without a dominating validity test of the pointer", g.where(gcall))
